@@ -143,10 +143,18 @@ class NumberedObjectCollection(ABC):
         """
         if not isinstance(other_list, (list, type(self))):
             raise TypeError("The extending list must be a list")
+        new_numbers = set()
         for obj in other_list:
             if not isinstance(obj, self._obj_class):
                 raise TypeError(
                     "The object in the list {obj} is not of type: {self._obj_class}"
+                )
+            if obj.number in new_numbers:
+                raise NumberConflictError(
+                    (
+                        f"When adding to {type(self)} there was a number collision due to "
+                        f"adding {obj} which conflicts with another object being added."
+                    )
                 )
             if obj.number in self.numbers:
                 raise NumberConflictError(
@@ -158,6 +166,7 @@ class NumberedObjectCollection(ABC):
             # if this number is a ghost; remove it.
             else:
                 self.__num_cache.pop(obj.number, None)
+            new_numbers.add(obj.number)
         self._objects.extend(other_list)
         if self._problem:
             for obj in other_list:
@@ -354,7 +363,15 @@ class NumberedObjectCollection(ABC):
             other_list = other.objects
         else:
             other_list = other
+        new_numbers = set()
         for obj in other_list:
+            if obj.number in new_numbers:
+                raise NumberConflictError(
+                    (
+                        "There was a numbering conflict when attempting to add "
+                        f"{obj} to {type(self)}. Conflict was with another object being added."
+                    )
+                )
             if obj.number in self.numbers:
                 raise NumberConflictError(
                     (
@@ -364,6 +381,7 @@ class NumberedObjectCollection(ABC):
                 )
             else:
                 self.__num_cache[obj.number] = obj
+            new_numbers.add(obj.number)
         self._objects += other_list
         if self._problem:
             for obj in other_list:
